@@ -70,11 +70,19 @@ class C12(Prop):
         in_names = [k for k in names if k in used]     # get_value is only demanded for variables the spec uses
         sd = c09.modular_sd(case, names)
         sd['vars'] = list(names) + [nm for nm in bound]       # names declared, as in the README example
+        iasd, hk_d, hk_c = {}, None, None
+        if case.get('ia') and kind != 'dt_on_pastified':
+            from rtverif.props.c06 import hook_discrete, hook_dense
+            hk_d, hk_c = hook_discrete(*case['ia']), hook_dense(*case['ia'])
+            # the same interface-aware semantics and io assignment on the modular and on the stand-alone specs
+            iasd = {'semantics': case['ia'][0], 'io': case['ia'][1]}
+            sd = dict(sd, **iasd)
+            v.info['class:interface-aware'] = 1
         api = 'ct' if dense else 'dt'
         pastify = (kind == 'dt_on_pastified')
         try:
             m = drive.Mon(api, sd, pastify=pastify)
-            alone = dict((nm, drive.Mon(api, {'text': c09.text_of(case, g), 'vars': names}, pastify=pastify))
+            alone = dict((nm, drive.Mon(api, dict({'text': c09.text_of(case, g), 'vars': names}, **iasd), pastify=pastify))
                          for nm, g in bound.items())
         except Exception as e:
             v.skip = 'parse/pastify raised %s' % type(e).__name__
@@ -106,7 +114,7 @@ class C12(Prop):
                     got = get(nm)
                     if got is None:
                         continue
-                    expn = refd.evaluate(bound[nm], case['data'], n)
+                    expn = refd.evaluate(bound[nm], case['data'], n, pred_hook=hk_d)
                     if not isinstance(got, list) or len(got) != n or any(
                             expn[i] == expn[i] and not refd.same(got[i], want[i], rel) for i in range(n)):
                         v.bad('named-value', '%s [%s] data=%s: get_value(%r)=%s but the stand-alone spec %s gives %s' %
@@ -151,7 +159,7 @@ class C12(Prop):
                     got = get(nm)
                     if got is None:
                         continue
-                    expn = ref_dense.evaluate(bound[nm], sig)
+                    expn = ref_dense.evaluate(bound[nm], sig, pred_hook=hk_c)
                     wstep = [s for s in want]
                     bad = None
                     for t in ref_dense.probe_times(expn, list(want) + list(got if isinstance(got, list) else []),
